@@ -21,7 +21,24 @@ use embedded_graphics::{
 };
 use serde_json::{json, Value};
 
+/// Built-in font by name, or a custom copy with non-zero character spacing: "spaced:<built-in name>:<spacing>"
+/// (leaked once per distinct name; the harness is a short-lived process).
 pub fn font_by_name(name: &str) -> &'static MonoFont<'static> {
+    if let Some(rest) = name.strip_prefix("spaced:") {
+        use std::collections::HashMap;
+        use std::sync::{Mutex, OnceLock};
+        static CACHE: OnceLock<Mutex<HashMap<String, &'static MonoFont<'static>>>> = OnceLock::new();
+        let mut c = CACHE.get_or_init(|| Mutex::new(HashMap::new())).lock().unwrap();
+        if let Some(f) = c.get(name) {
+            return f;
+        }
+        let mut it = rest.rsplitn(2, ':');
+        let sp: u32 = it.next().unwrap().parse().expect("spacing");
+        let base = font_by_name(it.next().expect("base font"));
+        let f: &'static MonoFont<'static> = Box::leak(Box::new(MonoFont { character_spacing: sp, ..*base }));
+        c.insert(name.to_string(), f);
+        return f;
+    }
     FONTS.iter().find(|(n, _)| *n == name).unwrap_or_else(|| panic!("unknown font {}", name)).1
 }
 
